@@ -109,7 +109,8 @@ def write(tmpdir, spec, name):
     from props import _scenes as S
 
     frames, predicted = render_frames(spec)
-    return S.write_labels(tmpdir, frames, S.make_skeleton(K, EDGES), name=name, embed=True, predicted=predicted)
+    # missing nodes are stored as INVISIBLE points that keep plausible coordinates (Instance.numpy() still shows NaN)
+    return S.write_labels(tmpdir, frames, S.make_skeleton(K, EDGES), name=name, embed=True, predicted=predicted, stale_invisible=True)
 
 
 # ---------------------------------------------------------------------------
